@@ -12,4 +12,7 @@ Resp(tag, bodyOk) ==
   /\ tag = reqs[nresp + 1]
   /\ bodyOk
   /\ nresp' = nresp + 1 /\ UNCHANGED reqs
+\* the end of the observation: the client waited well beyond every origin delay.  If Squid has not closed the connection (it may,
+\* after an error response) and nothing more arrives, every request must have had its response
+End(openIdle) == (openIdle => nresp = Len(reqs)) /\ UNCHANGED pvars
 ====
